@@ -462,5 +462,5 @@ pub fn strategy() -> BoxedStrategy<Case> {
 }
 
 pub fn plan(tier: Tier) -> Plan<Case> {
-    Plan { strategy: strategy(), check, shrink_iters: 3000, decode_bytes: Some(sdjwt_model::ops::decode_c07), cases: match tier { Tier::Quick => 64_000, Tier::Thorough => 3_000_000 } }
+    Plan { strategy: strategy(), check, shrink_iters: 3000, decode_bytes: Some(sdjwt_model::ops::decode_c07), watchdog_secs: 0, cases: match tier { Tier::Quick => 64_000, Tier::Thorough => 3_000_000 } }
 }
